@@ -14,9 +14,11 @@ def T(tag, *xs):
 # |ubi.g| <= 2^51 : the domain on which the MAGIC rounding idiom equals round-half-even (lemma rne_magic)
 RNG = ["forall(0, ng, lambda q: And_(*[And_(hkl(ubi, gv, q, r) <= 2**51, hkl(ubi, gv, q, r) >= -2**51) for r in range(3)]))"]
 R9 = "[(i, j) for i in range(3) for j in range(3)]"
+# makes the definition of hkl(ubi, gv, k, .) available at the loop's current peak (needed for the rounding-range obligations)
+REV = "reveal(*[hkl(ubi, gv, k, r) for r in range(3)])"
 
 cfn("closest.c:conv_double_to_int_safe",
-    ensures=T("C06", "result == floor(x + 0.5)"), props=["C06"])
+    ensures=["result == floor(x + 0.5)"], props=["C06"])
 
 cfn("closest.c:inverse3x3", lens={"H": 3},
     assigns=["H"],
@@ -35,7 +37,7 @@ cfn("closest.c:verify_rounding", rne="exact",
 SEL = "lambda q: dspec(ubi, gv, q) < tol*tol"
 cfn("closest.c:score", lens={"ubi": 3, "gv": "ng"},
     requires=["ng >= 0"] + RNG,
-    loops={0: T("C06", "n == count('nsel', k, %s)" % SEL) + ["0 <= n <= k"]},
+    loops={0: T("C06", "n == count('nsel', k, %s)" % SEL) + ["0 <= n <= k", REV]},
     ensures=T("C06", "result == count('nsel', ng, %s)" % SEL),
     props=["C06"])
 
@@ -65,7 +67,7 @@ def refine_contract(key, sel, loopkey, extra_lens, extra_inv, count_name, npk_ou
         outputs={npk_out: "0..1", sum_out: "0..1"},
         assigns=["ubi", npk_out, sum_out],
         requires=["ng >= 0"] + RNG + list(pre),
-        loops={loopkey: ["0 <= n <= k", "isdef('n')", "isdef('%s')" % extra_inv["sumvar"],
+        loops={loopkey: ["0 <= n <= k", REV, "isdef('n')", "isdef('%s')" % extra_inv["sumvar"],
                          "And_(*[And_(defined(R[i], j), defined(H[i], j)) for i, j in %s])" % R9]
                + extra_inv["safety"]
                + T("C06", "n == " + CNT % "k",
@@ -106,7 +108,7 @@ cfn("closest.c:score_and_assign", lens={"ubi": 3, "gv": "ng", "drlv2": "ng", "la
     assigns=["drlv2", "labels"],
     requires=["ng >= 0"] + RNG,
     locals={"take": TAKE},
-    loops={0: ["0 <= n <= k"] + T("C07",
+    loops={0: ["0 <= n <= k", REV] + T("C07",
                "n == count('ntake', k, take)",
                "forall(0, k, lambda q: implies(take(q), And_(labels[q] == label, drlv2[q] == dspec(ubi, gv, q))))",
                "forall(0, k, lambda q: implies(Not_(take(q)), And_(drlv2[q] == old.drlv2[q],"
